@@ -285,7 +285,7 @@ Theorem C13_consumers : forall i l, Denotes i l ->
      (s', Ok (RVal (VList false [VList false (fst (split_at_l l n)); VList false (snd (split_at_l l n))])))) /\
   (forall k v s, exists fuel s', apply_stage fuel s (SGroupBy k v) (RIter i) =
      (s', if forallb (fun x => hashable (apply k x)) l
-          then Ok (RIter (OfList (map (fun g => pair_val (fst g) (VList true (snd g)))
+          then Ok (RIter (OfList (map (fun g => pair_val (fst g) (VList false (snd g)))
                                       (group_by_l val_eqb (apply k) (fun x => match v with Some g => apply g x | None => x end) l))))
           else Err EType)).
 Proof. exact (fun i l D => conj (fun n s => consumer_split_at i l n D s) (fun k v s => consumer_group_by i l k v D s)). Qed.
